@@ -384,8 +384,65 @@ def check_crit(case):
     return R(fails, nt=nt, labels=labels)
 
 
+COMPUTED_TRUE = ['AND(TRUE,TRUE)', 'NOT(FALSE)', 'ISNUMBER(1)', 'OR(FALSE,TRUE)', '(1=1)']
+COMPUTED_FALSE = ['AND(TRUE,FALSE)', 'NOT(TRUE)', 'ISTEXT(1)', 'XOR(TRUE,TRUE)', '(1=2)']
+
+
+def meta_logical_cases():
+    """A logical value is the same key / criterion / vector element whether it was typed or computed by a function
+    (added after seed c19-a-r4): every formula below is evaluated with typed TRUE/FALSE and with each computed spelling."""
+    templates = [
+        # (formula with {T} / {F} placeholders, data for B1:C4)
+        ('MATCH({T},B1:B4,0)', [[1.0, 'a'], [True, 'b'], [False, 'c'], ['TRUE', 'd']]),
+        ('MATCH({F},B1:B4,0)', [[0.0, 'a'], [True, 'b'], [False, 'c'], ['FALSE', 'd']]),
+        ('VLOOKUP({T},B1:C4,2,FALSE)', [[1.0, 'a'], [True, 'b'], [False, 'c'], ['TRUE', 'd']]),
+        ('HLOOKUP({F},{1,TRUE,FALSE,0;"p","q","r","s"},2,FALSE)', None),
+        ('COUNTIF(B1:B4,{T})', [[1.0, 'a'], [True, 'b'], [False, 'c'], ['TRUE', 'd']]),
+        ('COUNTIF(B1:B4,{F})', [[0.0, 'a'], [True, 'b'], [False, 'c'], [None, 'd']]),
+        ('SUMIF(B1:B4,{T},C1:C4)', [[1.0, 1.0], [True, 10.0], [False, 100.0], [True, 1000.0]]),
+        ('MATCH(1,IF({1;1;1},NOT(B1:B3)),0)', [[True, 'a'], [False, 'b'], [True, 'c']]),
+        ('MATCH({T},IF({1;1;1},NOT(B1:B3)),0)', [[True, 'a'], [False, 'b'], [True, 'c']]),
+        ('MATCH({T},NOT(B1:B3),0)', [[True, 'a'], [False, 'b'], [True, 'c']]),
+        ('LOOKUP({T},{FALSE,TRUE},{"no","yes"})', None),
+        ('MATCH({F},{TRUE,FALSE},-1)', None),
+        ('IF(ISNA(MATCH({T},{1,2},0)),"none","hit")', None),
+        ('AVERAGEIF(B1:B4,{F},C1:C4)', [[0.0, 1.0], [False, 10.0], [False, 30.0], [True, 1000.0]]),
+    ]
+    for f, data in templates:
+        yield {'k': 'metalog', 'f': f, 'd': data}
+
+
+def check_metalog(case):
+    inputs = {}
+    if case['d'] is not None:
+        rows = [[BLANK if v is None else v for v in row] for row in case['d']]
+        inputs = {'B1:C%d' % len(rows): rows}
+        # sub-ranges used by the templates
+        inputs['B1:B%d' % len(rows)] = [[r[0]] for r in rows]
+        inputs['C1:C%d' % len(rows)] = [[r[1]] for r in rows]
+
+    def run(f):
+        try:
+            v, _ = sut.cell_eval('A9', '=' + f, inputs)
+            return sut.one(v) if not (isinstance(v, str) and v == 'MISSING') else Foreign('no-output')
+        except sut.Watchdog:
+            raise
+        except Exception as ex:  # noqa
+            return Foreign('raised:%s' % type(ex).__name__)
+    base = run(case['f'].replace('{T}', 'TRUE').replace('{F}', 'FALSE'))
+    fails = []
+    for i in range(len(COMPUTED_TRUE)):
+        f = case['f'].replace('{T}', COMPUTED_TRUE[i]).replace('{F}', COMPUTED_FALSE[i])
+        got = run(f)
+        if not X.same(got, base, 1e-12):
+            fails.append(('metalog|%s|%s' % (case['f'].split('(')[0], X.cls(got)), '=%s gives %r, with typed logicals %r' % (f, got, base)))
+    return R(fails[:3], nt=True, n=len(COMPUTED_TRUE) + 1, labels=['part:metalog', 'f:' + case['f'].split('(')[0]])
+
+
 def check_case(case):
     k = case['k']
+    if k == 'metalog':
+        return check_metalog(case)
     if k == 'match':
         return check_match(case)
     if k == 'index':
@@ -884,6 +941,7 @@ def parts(tier, seed):
         ('enum', 'lookup', _enum_lookup(tier), 100, not q),
         ('enum', 'table', table, 100, not q),
         ('enum', 'criteria', crit, 100, not q),
+        ('enum', 'computed-logicals', meta_logical_cases(), 2, False),
         ('hyp', 'rand-look', 1600 if q else 100000),
         ('hyp', 'rand-crit', 1600 if q else 100000),
     ]
